@@ -127,6 +127,16 @@ FAMILIES = {
 }
 
 
+# nested constructs whose INNERMOST expression is wrong in a way no invalid_* rule reports at once (the diagnostic pass walks back out
+# through every level): every nesting kind x every kind of inner error
+_NESTS = {"call": ("f(", ")"), "subscript": ("a[", "]"), "paren": ("(", ")"), "brack": ("[", "]"), "dict": ("{1: ", "}"), "tupl": ("(0, ", ")"),
+          "kwcall": ("f(k=", ")"), "lambda_call": ("g(lambda: ", ")"), "await": ("h(await ", ")")}
+_ERRS = {"trailing_op": "1 +", "two_names": "a b", "dot": "a.", "not": "not", "star2": "1 **", "unclosed_str_op": "'s' -", "colon": "a :", "at": "a @"}
+for _nk, (_o, _c) in _NESTS.items():
+    for _ek, _e in _ERRS.items():
+        FAMILIES[f"inv_{_nk}_inner_{_ek}"] = (lambda o, c, e: (lambda n: "x = " + o * n + e + c * n + "\n"))(_o, _c, _e)
+
+
 def main():
     tier = sys.argv[1] if len(sys.argv) > 1 else "quick"
     sizes = (6, 12) if tier == "quick" else (10, 20)
